@@ -405,22 +405,44 @@ fn exec_cmd_cases(ctx: &Ctx, n: usize) -> SubReport {
     rep
 }
 
+/// GRAPH.* instruction histories (the C18 generator): graphs on the stack descend from one
+/// another (GRAPH.DUP then mutation), so they share node ids - a shape the independent graphs of
+/// the sweep states never have. Crash-only.
+fn graph_histories(ctx: &Ctx, n: u64) -> SubReport {
+    run_sharded(
+        ctx,
+        "graph-histories",
+        n,
+        crate::props::c18::instr_history,
+        |g| match crate::props::c18::run_history_crash_only("C01", g) {
+            Ok((steps, diffed)) => {
+                let mut h = Fnv::new();
+                h.str(&format!("{:?}", g));
+                Ok(CaseOut::new(diffed && steps >= 5, h.0).class(if diffed { "print-diff-of-related-graphs" } else { "no-diff-of-related-graphs" }))
+            }
+            Err((name, loc, msg)) => Err(Fail::new(format!("C01/{}/panic@{}", name, loc), format!("{} panicked at {}: {}", name, loc, msg))),
+        },
+        |g| json!({"groups": format!("{:?}", g)}),
+    )
+}
+
 pub fn run(ctx: &Ctx) -> PropReport {
     let names = crate::exec::registry_names();
     let mut rep = PropReport::new(
-        "(A) every registered instruction x operand profiles (each documented operand stack at a depth from {0,1,need-1,need,need+2,6}, values from the boundary pools, index-like INTEGER operands at len-1/len/len+1/-len, live and stale graph node ids, INPUT messages with empty bodies, random bystanders), one step; (B) program trees over the full registry and programs from random_code_with_size(1..300) on random initial states and configurations, executed by <= 400 monitored single steps and - deterministic programs that stayed inside the envelope - by run(); non-trivial = (A) all documented operands present or the state size changed, (B) >= 5 instructions executed with their operands present; distinct = (instruction, state) / state digest",
+        "(A) every registered instruction x operand profiles (each documented operand stack at a depth from {0,1,need-1,need,need+2,6}, values from the boundary pools, index-like INTEGER operands at len-1/len/len+1/-len, live and stale graph node ids, INPUT messages with empty bodies, random bystanders), one step; (G) GRAPH.* instruction histories (DUP then mutation: stacked graphs sharing node ids; live / stale / absurd ids); (B) program trees over the full registry and programs from random_code_with_size(1..300) on random initial states and configurations, executed by <= 400 monitored single steps and - deterministic programs that stayed inside the envelope - by run(); non-trivial = (A) all documented operands present or the state size changed, (B) >= 5 instructions executed with their operands present; distinct = (instruction, state) / state digest",
         "INV: every step()/run() call returns; a panic (caught per case) or an abnormal worker exit / hang (detected by the supervising parent through the per-thread journal and confirmed in a fresh process) is a violation. Resource envelope: positive size operands > 4096 clamped, cases abandoned beyond 20 000 points per item or 200 000 cells; EXEC.CMD performs its stack effect without spawning unless the command is /bin/true.",
     );
     rep.assumptions.push("dev profile (debug assertions and overflow checks on), the profile of the repository's own test suite".into());
-    let a = run_sharded(ctx, "single-instruction-sweep", ctx.tier.pick(300, 6000) * names.len() as u64, || sweep_strategy(crate::exec::registry_names()), judge_sweep, |c| {
+    let a = run_sharded(ctx, "single-instruction-sweep", ctx.tier.pick(600, 6000) * names.len() as u64, || sweep_strategy(crate::exec::registry_names()), judge_sweep, |c| {
         json!({"instruction": c.name, "state": c.state.to_json(), "live_ids": c.live_ids, "brief": c.state.brief()})
     });
     rep.push(a);
     let (d, sz) = ctx.tier.pick((4u32, 40u32), (6, 120));
-    rep.push(run_sharded(ctx, "programs", ctx.tier.pick(12_000, 400_000), move || prog_strategy(crate::exec::registry_names(), d, sz), judge_program, |c| {
+    rep.push(run_sharded(ctx, "programs", ctx.tier.pick(30_000, 400_000), move || prog_strategy(crate::exec::registry_names(), d, sz), judge_program, |c| {
         json!({"state": c.state.to_json(), "program": c.state.exec.iter().map(|x| x.render()).collect::<Vec<_>>().join(" | ")})
     }));
-    rep.push(generated_programs(ctx, ctx.tier.pick(3_000, 100_000)));
+    rep.push(generated_programs(ctx, ctx.tier.pick(8_000, 100_000)));
+    rep.push(graph_histories(ctx, ctx.tier.pick(40_000, 400_000)));
     rep.push(exec_cmd_cases(ctx, ctx.tier.pick(2, 6)));
     if ctx.tier == Tier::Thorough {
         rep.push(crate::fuzzrun::campaign(ctx, "C01", "exec_program", 2_000_000, 1024));
@@ -428,7 +450,15 @@ pub fn run(ctx: &Ctx) -> PropReport {
     rep
 }
 
-pub fn replay(_ctx: &Ctx, sub: &str, case: &Value) -> Result<(), Fail> {
+pub fn replay(ctx: &Ctx, sub: &str, case: &Value) -> Result<(), Fail> {
+    if sub == "graph-histories" {
+        // histories are stored in debug form; replay re-runs the sub-check with the recorded seed
+        let r = graph_histories(ctx, 20_000);
+        return match r.violations.first() {
+            Some(v) => Err(Fail::new(v.signature.clone(), v.detail.clone())),
+            None => Ok(()),
+        };
+    }
     let bad = || Fail::new("replay-format", "cannot decode C01 case");
     let s = StateSpec::from_json(case.get("state").ok_or_else(bad)?).ok_or_else(bad)?;
     if let Some(name) = case.get("instruction").and_then(|x| x.as_str()) {
